@@ -222,17 +222,29 @@ def enumerated(tier):
         frontier = [sq + [op] for sq in frontier for op in ENUM_OPS]
         seqs += frontier
     combos = [(d, c) for d in ENUM_D for c in ENUM_C]
+    n_main = len(combos) * len(seqs)
+    # on top, in both tiers: every PAIR of timed ops after a successful connection, once with a prompt client handler and once
+    # with a handler that suspends while it is told to tear the facade down (so the second event arrives from another task
+    # in the middle of the first one's processing)
+    pairs = [[a, b] for a in ENUM_OPS for b in ENUM_OPS]
+    variants = [{}, {"CLIENT_FACADE_TEARDOWN": 0.3}]
 
     def fn(i):
-        d, c = combos[i % len(combos)]
-        ops = seqs[i // len(combos)]
-        return {"k": "A", "discover": [d, "found"], "connect": [c, "complete"], "ops": [list(o) for o in ops], "suspend": [], "suspend_map": {}}
+        if i < n_main:
+            d, c = combos[i % len(combos)]
+            ops = seqs[i // len(combos)]
+            return {"k": "A", "discover": [d, "found"], "connect": [c, "complete"], "ops": [list(o) for o in ops], "suspend": [], "suspend_map": {}}
+        i -= n_main
+        ops = pairs[i % len(pairs)]
+        return {"k": "A", "discover": ["found", "found"], "connect": ["complete", "complete"], "ops": [list(o) for o in ops], "suspend": [],
+                "suspend_map": dict(variants[i // len(pairs)])}
 
-    return len(combos) * len(seqs), fn
+    return n_main + len(pairs) * len(variants), fn
 
 
 def coverage_extra(tier):
-    return {"layer_A_enumeration": "all (discover, connect) outcome pairs x all op sequences up to depth %d over %d timed ops" % (2 if tier == "thorough" else 1, len(ENUM_OPS))}
+    return {"layer_A_enumeration": "all (discover, connect) outcome pairs x all op sequences up to depth %d over %d timed ops; plus all %d ordered pairs of timed ops after a "
+            "successful connection, with a prompt and with a suspending teardown handler" % (2 if tier == "thorough" else 1, len(ENUM_OPS), len(ENUM_OPS) ** 2)}
 
 
 _SNAP = None
